@@ -138,6 +138,20 @@ func streamBookkeepingRule(c *Ctx) {
 		c.Check(isAs && len(as.Rhs) == 1 && impliesEmpty(dl, as.Rhs[0]) && dg.ReachableFrom(delV)[dg.VertexOf(w)], "deliverLocked:done-means-no-request-left", dl, w, "the stream is reported complete only when, after this response was recorded, s.requests is empty: completing on the first response of a batch drops the other responses")
 	}
 	c.Pin("assignments to deliverLocked's done result", nDone, 1)
+	// the gates of the delivery are exactly what they look like: the response is recorded whenever the message is a
+	// response, and the event is written whenever the stream is attached and no status override applies — an additional
+	// test on some flag of the stream (its kind, its mode) would drop responses or events of some streams only
+	if nl, what := dg.semanticLeaves(delV); true {
+		c.Check(nl == 1, "deliverLocked:every-response-is-recorded", dl, dg.Node(delV), "one test (responseTo.IsValid()) guards the removal of the answered request (%d: %s)", nl, what)
+	}
+	weObj := c.FnObj(pM, "", "writeEvent")
+	nWE := 0
+	for _, call := range dl.CallsIn(dl.Body, weObj, false) {
+		nWE++
+		nl, what := dg.semanticLeaves(dg.VertexOf(call))
+		c.Check(nl == 0, "deliverLocked:every-message-is-written", dl, call, "inside its own statement nothing but the nil test of the JSON buffer guards the SSE write (%d: %s)", nl, what)
+	}
+	c.Pin("deliverLocked event writes", nWE, 1)
 	for i, r := range dl.Returns() {
 		if len(r.Results) == 2 {
 			c.Check(dl.ObjOf(r.Results[0]) == doneRes, "deliverLocked:returns-done#"+itoa(i), dl, r, "every return reports the computed completion value")
